@@ -47,6 +47,7 @@ var extraRules = map[string][]string{
 	"trailers-after-drain":         {"C03", "C04", "C11"},
 	"request-started-on-all-exits": {"C14"},
 	"writer-must-pass-through":     {"C01", "C05"},
+	"index-safety":                 {"C06", "C07", "C18"},
 	"wrote-flag-before-write":      {"C02", "C05", "C11"},
 	"response-headers-flushed":     {"C11", "C02"},
 	"pool-hygiene":                 {"C06", "C07"},
